@@ -48,7 +48,7 @@ type params struct {
 }
 
 func (*prop) Cases(seed int64, tier string) []core.Case {
-	shards, genCases, per := 8, 8, 2
+	shards, genCases, per := 8, 16, 4
 	if tier == "thorough" {
 		shards, genCases, per = 8, 48, 12
 	}
